@@ -148,7 +148,9 @@ where
                     )
                 }
             }
-            GenericAction::Panic(_, msg) => write!(f, "(panic \"{msg}\")"),
+            // The message is a string literal in the source; print it as one so
+            // that quotes and backslashes are escaped and the text re-parses.
+            GenericAction::Panic(_, msg) => write!(f, "(panic {})", Literal::String(msg.clone())),
             GenericAction::Expr(_, e) => write!(f, "{e}"),
         }
     }
